@@ -301,20 +301,37 @@ type gen struct {
 	r      *hx.RNG
 	nextID int
 	malf   bool   // allow inputs on which the code panics (nil pointers)
+	noPeer bool   // never generate imported (peered) entries
+	peerPct int   // chance (percent) that an entry that can be imported is
 	nodeKind, subKind byte
+	nodePeerOK bool // the node entries of this response type have a PeerName
 	z      *authz // the authorizer the case will be filtered with (only to bias names towards mixed outcomes)
 }
 
 // nameFor picks a name; in 55% of the draws one the authorizer lets read for that kind (if any), so
 // that entries needing two permissions are not almost always dropped.
-func (g *gen) nameFor(kind byte, nonEmpty bool) string {
+func (g *gen) nameFor(kind byte, nonEmpty bool) string { return g.nameForP(kind, nonEmpty, false) }
+
+// peered: decide whether the next entry is an imported one.
+func (g *gen) peered() bool { return !g.noPeer && g.r.Chance(g.peerPct) }
+
+// nameForP: peered = the name of an imported node / service ("<name>@<peer>"; an imported entry's
+// service name may still be empty: node-level check).
+func (g *gen) nameForP(kind byte, nonEmpty, peered bool) string {
 	lo := 0
 	if nonEmpty {
 		lo = 1
 	}
+	cands := names[lo:]
+	if peered {
+		cands = append([]string(nil), peerNames...)
+		if !nonEmpty {
+			cands = append(cands, "")
+		}
+	}
 	if g.z != nil && g.r.Chance(55) {
 		var ok []string
-		for _, n := range names[lo:] {
+		for _, n := range cands {
 			var y bool
 			switch kind {
 			case 'n':
@@ -338,7 +355,7 @@ func (g *gen) nameFor(kind byte, nonEmpty bool) string {
 			return ok[g.r.Intn(len(ok))]
 		}
 	}
-	return names[lo+g.r.Intn(len(names)-lo)]
+	return cands[g.r.Intn(len(cands))]
 }
 
 func (g *gen) id() int { g.nextID++; return g.nextID }
@@ -361,7 +378,10 @@ func sp(s string) *string { return &s }
 func (g *gen) csns() []csnT {
 	var xs []csnT
 	for i, n := 0, g.n(); i < n; i++ {
-		c := csnT{node: sp(g.nameFor('n', true)), svc: sp(g.nameFor('s', false)), id: g.id()}
+		pe := g.peered()
+		// (CanRead asks ServiceRead even for an empty name, with the service's peer: the IR cannot say
+		// "empty name of peer p", so imported entries always name their service)
+		c := csnT{node: sp(g.nameForP('n', true, pe)), svc: sp(g.nameForP('s', pe, pe)), id: g.id()}
 		if g.malf && g.r.Chance(12) {
 			if g.r.Bool() {
 				c.node = nil
@@ -380,6 +400,9 @@ func (g *gen) nodeEnts() []nodeEnt {
 	var xs []nodeEnt
 	for i, n := 0, g.n(); i < n; i++ {
 		c := nodeEnt{g.nameFor(g.nodeKind, false), g.id()}
+		if g.nodePeerOK && g.peered() {
+			c.node = g.nameForP('n', true, true)
+		}
 		if len(xs) > 0 && g.r.Chance(15) {
 			c = xs[g.r.Intn(len(xs))]
 		}
@@ -390,7 +413,8 @@ func (g *gen) nodeEnts() []nodeEnt {
 func (g *gen) svcEnts() []svcEnt {
 	var xs []svcEnt
 	for i, n := 0, g.n(); i < n; i++ {
-		c := svcEnt{g.nameFor('n', true), g.nameFor('s', false), g.id()}
+		pe := g.peered()
+		c := svcEnt{g.nameForP('n', true, pe), g.nameForP('s', false, pe), g.id()}
 		if len(xs) > 0 && g.r.Chance(15) {
 			c = xs[g.r.Intn(len(xs))]
 		}
@@ -398,10 +422,13 @@ func (g *gen) svcEnts() []svcEnt {
 	}
 	return xs
 }
-func (g *gen) subs() []subT {
+func (g *gen) subs() []subT { return g.subsP(false) }
+
+// subsP: nested entries of a node; those of an imported node carry its peer.
+func (g *gen) subsP(peered bool) []subT {
 	var xs []subT
 	for i, n := 0, g.n(); i < n; i++ {
-		xs = append(xs, subT{g.nameFor(g.subKind, false), g.id()})
+		xs = append(xs, subT{g.nameForP(g.subKind, false, peered), g.id()})
 	}
 	return xs
 }
@@ -423,12 +450,13 @@ func (g *gen) gws() []gwT {
 func (g *gen) dump() []nodeInfoT {
 	var xs []nodeInfoT
 	for i, n := 0, g.n(); i < n; i++ {
-		x := nodeInfoT{node: g.nameFor('n', true), id: g.id()}
+		pe := g.peered()
+		x := nodeInfoT{node: g.nameForP('n', true, pe), id: g.id()}
 		if g.r.Chance(80) {
-			x.svcs = g.subs()
+			x.svcs = g.subsP(pe)
 		}
 		if g.r.Chance(80) {
-			x.chks = g.subs()
+			x.chks = g.subsP(pe)
 		}
 		xs = append(xs, x)
 	}
@@ -439,6 +467,11 @@ func (g *gen) dump() []nodeInfoT {
 func (g *gen) generate(ty string) *payload {
 	p := &payload{}
 	g.nodeKind, g.subKind = 'n', 's'
+	g.nodePeerOK = ty == "IndexedNodes"
+	if g.peerPct == 0 {
+		g.peerPct = 22
+	}
+	local, imported := g.peerPct, 80 // the "imported" halves of a response are mostly peered
 	if ty == "IndexedSessions" {
 		g.nodeKind = 'e'
 	}
@@ -479,13 +512,15 @@ func (g *gen) generate(ty string) *payload {
 	case "IndexedNodeDump":
 		p.dump[0] = g.dump()
 		if g.r.Chance(60) {
+			g.peerPct = imported
 			p.dump[1] = g.dump()
+			g.peerPct = local
 		}
 	case "IndexedServiceDump":
 		for i, n := 0, g.n(); i < n; i++ {
 			s := svcInfoT{gs: &[2]string{g.nameFor('s', false), g.nameFor('s', false)}, id: g.id()}
 			if g.r.Chance(70) {
-				s.node = sp(g.nameFor('n', true))
+				s.node = sp(g.nameForP('n', true, g.peered()))
 			}
 			if g.malf && g.r.Chance(12) {
 				s.gs = nil
@@ -496,24 +531,27 @@ func (g *gen) generate(ty string) *payload {
 		if g.r.Chance(10) {
 			p.nsNil = true
 		} else {
-			p.nsNode = sp(g.nameFor('n', true))
-			idNeName := g.r.Chance(60) // service registered under an ID different from its name
+			pe := g.peered()
+			p.nsNode = sp(g.nameForP('n', true, pe))
+			idNeName := g.r.Chance(60) || pe // service registered under an ID different from its name
 			for _, k := range g.uniqueKeys(g.n()) {
 				if k == "" {
 					continue // a service ID is never empty
 				}
 				e := nsEnt{key: k, name: k, id: g.id()}
-				if idNeName && g.r.Chance(60) {
-					e.name = g.nonEmpty()
+				if idNeName && g.r.Chance(60) || pe {
+					e.name = g.nameForP('s', true, pe)
 				}
 				p.ns = append(p.ns, e)
 			}
 		}
 	case "IndexedNodeServiceList":
+		pe := false
 		if !g.r.Chance(10) {
-			p.nsNode = sp(g.nameFor('n', true))
+			pe = g.peered()
+			p.nsNode = sp(g.nameForP('n', true, pe))
 		}
-		p.subs = g.subs()
+		p.subs = g.subsP(pe)
 	case "IndexedServices":
 		for _, k := range g.uniqueKeys(g.n()) {
 			p.subs = append(p.subs, subT{k, g.id()})
@@ -544,7 +582,9 @@ func (g *gen) generate(ty string) *payload {
 	case "IndexedNodesWithGateways":
 		p.csn[0], p.gws = g.csns(), g.gws()
 		if g.r.Chance(60) {
+			g.peerPct = imported
 			p.csn[1] = g.csns()
+			g.peerPct = local
 		}
 	case "DirEntries":
 		p.subs = g.subs()
@@ -553,10 +593,14 @@ func (g *gen) generate(ty string) *payload {
 			t := txnT{kind: "knsce"[g.r.Intn(5)], id: g.id()}
 			switch t.kind {
 			case 'c':
-				t.a, t.b = g.nameFor('n', true), g.nameFor('s', false)
+				pe := g.peered()
+				t.a, t.b = g.nameForP('n', true, pe), g.nameForP('s', false, pe)
 			case 'e':
 			default:
 				t.a = g.nameFor(map[byte]byte{'k': 'k', 'n': 'n', 's': 's'}[t.kind], false)
+				if t.kind != 'k' && g.peered() {
+					t.a = g.nameForP(t.kind, true, true)
+				}
 			}
 			p.txns = append(p.txns, t)
 		}
